@@ -25,8 +25,8 @@ SPEC = {
         'Coq 8.16.1 kernel; vm_compute for evaluating the model on cases',
         'no axioms',
         'translator gen/handlers.go (per exported *service method of api_*.go: uses of s.accountGroupCtx / s.getAccountGroup(), nil '
-        'tests that return, panic calls; length guards of AESGCMDecrypt and AESCTRStream)',
-        'harness/root/zz_verif_c19_test.go (reflection over the service descriptor, protoreflect request filler)',
+        'tests that return, panic calls; length guards of AESGCMDecrypt and AESCTRStream, of Group.GetSigningPrivKey and of the nonce of the OutOfStoreMessage functions)',
+        'harness/root/zz_verif_c19_test.go (reflection over the service descriptor, protoreflect request filler, structural alterations of valid artefacts of the node, self-authenticating invitations with odd secrets)',
         'NOT modelled (runtime behaviour, exercised by the fuzzer only): nil/bounds safety of everything the handlers call '
         '(stores, secret store, orbit-db, ipfs), goroutines started by handlers, the gRPC transport (calls are in-process)',
     ],
